@@ -296,6 +296,10 @@ def reductions(sc):
         c = _cp(sc)
         del c["frames"]["land_fill"]
         yield "frames:no_land_fill", c
+    if sc["frames"].get("time_units_per_file"):
+        c = _cp(sc)
+        del c["frames"]["time_units_per_file"]
+        yield "frames:same_units_in_all_files", c
     if sc["frames"].get("time_units", "epoch") != "epoch":
         c = _cp(sc)
         c["frames"]["time_units"] = "epoch"
